@@ -3,7 +3,7 @@
    classification of non-ASCII code points; layout invariance and exact columns are decided per run by the LEX
    correspondence (all eight token fields) and the direct position oracle. *)
 From Coq Require Import List ZArith Bool.
-From Pory Require Import Lexer LexInv.
+From Pory Require Import Lexer LexInv Tables TablesOK.
 Import ListNotations.
 Local Open Scope Z_scope.
 
@@ -12,3 +12,8 @@ Theorem token_lines_in_range_partial :
     Forall (fun tk => 1 <= tline tk <= 1 + nl s /\ 1 <= teline tk <= 1 + nl s) (lex is_letter_hi is_digit_hi is_space_hi s).
 Proof. exact lex_lines_in_range. Qed.
 Print Assumptions token_lines_in_range_partial.
+
+(* the keyword table of the model is the table of token/token.go (regenerated from /repo on every run) *)
+Theorem keywords_are_the_go_table : go_keywords = keywords.
+Proof. exact keywords_agree. Qed.
+Print Assumptions keywords_are_the_go_table.
